@@ -26,23 +26,12 @@ from vf.spec import (
 
 # {{{ configurations
 
-HASH_SEEDS = {"quick": (0, 1, 4242), "thorough": (0, 1, 7, 4242)}
+HASH_SEEDS = {"quick": (0, 1, 4242), "thorough": (0, 1, 2, 7, 123, 4242)}
 INTERP_MODES = ("", "-O")
 PROTOCOLS = (0, 1, 2, 3, 4, 5)
 
 
-# quick: nestings (and their variants) under one protocol per pickling mechanism -- 0 (text,
-# copyreg._reconstructor), 2 (binary, __newobj__), 5 (framed, highest); everything else, and
-# everything in the thorough tier, under all six
-QUICK_NEST_PROTOCOLS = (0, 2, 5)
-
-
 def protocols_for(entry, tier, by_name=None):
-    fam = entry["family"]
-    if fam == "variant":
-        fam = (by_name or pool_by_name(tier))[entry["base"]]["family"]
-    if tier == "quick" and fam == "nest":
-        return QUICK_NEST_PROTOCOLS
     return PROTOCOLS
 
 
@@ -214,6 +203,12 @@ def extra_entries():
               ("floatinf", C(float("inf"))), ("true", C(True)), ("false", C(False)),
               ("complex", C(1 + 2j)), ("npint", ("np", "int64", 3)),
               ("npfloat", ("np", "float64", 2.5)), ("npbool", ("np", "bool", True)),
+              # reduced / other precisions, values that are not exactly representable
+              ("npf32", ("np", "float32", 0.1)), ("npf32big", ("np", "float32", 1e10)),
+              ("npf32dyadic", ("np", "float32", 1.5)), ("npf16", ("np", "float16", 0.3)),
+              ("npf64third", ("np", "float64", 1 / 3)), ("npc64", ("np", "complex64", 0.1 + 0.2j)),
+              ("npc128", ("np", "complex128", 0.1 + 0.2j)), ("npi8", ("np", "int8", -3)),
+              ("npu64", ("np", "uint64", 2 ** 63)),
               ("str", S("text")), ("none", NONE)]
     for nm, c in consts:
         add(f"const-{nm}", ("Product", T(X, c)))
@@ -262,6 +257,28 @@ def user_entries():
         tag = class_tag(info["cls"])
         spec = (tag, *[vals[f] for f in info["fields"]])
         out.append(_entry(f"user:{name}", name, "user", spec))
+    return out
+
+
+OLD = "U:vf.c17_usercls."
+
+
+def oldstyle_entries():
+    """Backend-only old-style nodes (vf/c17_usercls.py): pickle may refuse them (may_refuse);
+    whatever it accepts must satisfy every invariant."""
+    tag, pair = (OLD + "OldTag", S("alpha")), (OLD + "OldPair", S("beta"), ("Sum", T(X, C(1))))
+    sub = (OLD + "OldTagSub", S("gamma"))
+    out = [
+        _entry("oldstyle:OldTag", "OldTag", "user", tag, may_refuse=True),
+        _entry("oldstyle:OldPair", "OldPair", "user", pair, may_refuse=True),
+        _entry("oldstyle:OldTagSub", "OldTagSub", "user", sub, may_refuse=True),
+        _entry("nest:Sum2[1]:OldTag", "Sum2[1]:OldTag", "nest", ("Sum", T(X, tag)),
+               may_refuse=True),
+        _entry("nest:Call2[1]:OldPair", "Call2[1]:OldPair", "nest",
+               ("Call", V("f"), T(pair, ("Product", T(C(2), X)))), may_refuse=True),
+        _entry("nest:OldPair[1]:OldTagSub", "OldPair[1]:OldTagSub", "nest",
+               (OLD + "OldPair", S("delta"), sub), may_refuse=True),
+    ]
     return out
 
 
@@ -362,7 +379,23 @@ def kw_as_dict(s):
     return _rebuild(s, lambda c: ("dict", *c[1:]) if c[0] == "map" else c)
 
 
-VARIANTS = (("kwrev", kw_reversed), ("opname", op_by_name), ("kwdict", kw_as_dict))
+def np_as_python(s):
+    """Same expression, every numpy scalar constant replaced by the Python scalar c.item()."""
+    import numpy as np
+
+    def f(c):
+        if c[0] == "np":
+            return C(np.dtype(c[1]).type(c[2]).item())
+        return c
+    return _rebuild(s, f)
+
+
+VARIANTS = (("kwrev", kw_reversed), ("opname", op_by_name), ("kwdict", kw_as_dict),
+            ("npitem", np_as_python))
+# digest functions whose key must agree across a variant.  A numpy scalar and its .item() are
+# one key for the walk mapper (its map_constant says so); pytools' KeyBuilder keys constants by
+# type on purpose (np.float32(0.1) and 0.10000000149011612 get different keys), not asserted.
+VARIANT_DIGESTS = {"npitem": ("walk",)}
 
 
 def variant_entries(base_entries):
@@ -412,6 +445,16 @@ COMPILED_BOX = (-2, 1, 3)
 _CMP = lambda a, op, b: ("Comparison", a, S(op), b)     # noqa: E731
 
 
+# variable-name alphabets for (x, y, z): names differing only in case, upper before lower case,
+# digits / underscores (lexicographic is not numeric), a prefix of another name
+NAMINGS = (("case", ("x", "X", "z")), ("case-rev", ("X", "x", "z")), ("case2", ("ab", "AB", "Ab")),
+           ("upper", ("b", "A", "a")), ("digits", ("x10", "x9", "x_")),
+           ("underscore", ("_x", "x_", "X_")), ("prefix", ("xy", "x", "xyz")))
+NAMING_SHAPES = {"quick": ("Quotient", "Power", "If"),
+                 "thorough": ("Quotient", "Power", "If", "Remainder", "LeftShift", "Cmp<",
+                              "horner", "Sum3")}
+
+
 def compiled_entries(tier):
     exprs = []
     for n in ("Sum2", "Sum3", "Product2", "Product3", "Quotient", "FloorDiv", "Remainder",
@@ -435,8 +478,18 @@ def compiled_entries(tier):
                                        "Cmp<", "If", "Min2")]
         for (pn, pos, cn), spec in gen.nest2(arith, arith):
             exprs.append((f"{pn}[{pos}]:{cn}", spec))
-    out = []
+    # the same shapes under other variable-name alphabets (argument order is "by name")
+    shapes = NAMING_SHAPES[tier]
+    renamed = []
     for nm, spec in exprs:
+        if nm in shapes:
+            for an, names3 in NAMINGS:
+                ren = dict(zip(("x", "y", "z"), names3))
+                renamed.append((f"{nm}@{an}", _rebuild(
+                    spec, lambda c, ren=ren: V(ren.get(c[1][1], c[1][1]))
+                    if c[0] == "Variable" else c)))
+    out = []
+    for nm, spec in exprs + renamed:
         names = sorted({c[1][1] for c in walk(spec) if c[0] == "Variable"} - {"math", "numpy"})
         listings = [("auto", None)]
         if len(names) >= 2:
@@ -471,7 +524,8 @@ _POOLS = {}
 def pool(tier):
     if tier not in _POOLS:
         base = (single_entries() + extra_entries() + arith_entries() + user_entries()
-                + user_flat_entries(tier) + nest_entries(tier) + user_nest_entries(tier))
+                + user_flat_entries(tier) + oldstyle_entries() + nest_entries(tier)
+                + user_nest_entries(tier))
         allp = base + variant_entries(base) + compiled_entries(tier)
         names = [e["name"] for e in allp]
         if len(set(names)) != len(names):
